@@ -9,7 +9,7 @@ PROPS = {
     "C01": dict(
         title="FFT64 negacyclic product is exact within the documented precision budget",
         module="SpqProofs.Properties.C01",
-        extra_modules=["SpqProofs.Properties.Closed"],
+        extra_modules=["SpqProofs.Properties.Closed", "SpqProofs.Properties.C01Err"],
         streams=dict(quick=[("md_model", "plain"), ("md_prod", "plain"), ("md_prog", "plain")],
                      thorough=[("md_model", "plain"), ("md_prod", "plain"), ("md_prog", "plain")]),
         proved="exact-arithmetic part (product_exact_arith, rows_zero) on the module-level model instantiated with a commutative ring: "
@@ -19,12 +19,18 @@ PROPS = {
                "svp_exact / rows_zero (svp_prepare + svp_apply_dft + vec_znx_idft: limb i < min(rsz, asz) = pol * vec_i, all other output limbs exactly zero, "
                "all limb counts incl. 0, all strides) under the explicit hypotheses H1-H4 on the abstract conversion/FFT pieces (ExactDft) and the dispatch "
                "invariants (ExactArith: FMA pointwise kernels only when 4 | m); hypotheses shown satisfiable (Gaussian integers, nn = 2)",
-        not_proved="[update: Properties/Closed.lean discharges H1-H4 for the real FFT network in exact arithmetic (exactParts over any characteristic-0 ring with a primitive 4m-th root of unity, e.g. R with zeta = exp(i pi/2m)); what remains unproved is only the binary64 rounding budget] H1-H4 are hypotheses in Properties/C01.lean: H2/H3 (fft = evaluation at points z_j with z_j^m = i, ifft o fft = m) are C06's theorems, H1/H4 (exact "
-                   "conversion, exact division + rounding) are C14's; the floating-point budget (product_budget: error <= E = 8 log2(N) 2^-53 (...)) and hence "
-                   "'result = exact product whenever E < 1/2' for binary64 are not proved (depends on C06 fft_err) - tied by the md_prod oracle "
-                   "(__int128 schoolbook, E + 1/2 test) and the bit-exact md_model stream",
-        level_text="Lean 4 theorems (exact arithmetic, all N, all limb shapes) over the bit-exactly validated module model, conditional on the FFT/conversion "
-                   "specifications H1-H4; rounding budget by differential oracle only (partial)",
+        not_proved="END-TO-END BINARY64 (Properties/C01Err.lean, about the bit-exactly validated model function smallProduct (Cfg.parts c)): every output "
+                   "coefficient is an integer within E' + 1/2 of the exact negacyclic product with E' = 12*log2(N)*2^-53*(|a|_1 |b|_2 + |a|_2 |b|_1) for N <= 131072, "
+                   "and the result IS the exact product whenever E' < 1/2 (small_product_err_partial, small_product_exact_f64_partial, _prop_partial with the "
+                   "property's own preconditions; same per row for svp_prepare + svp_apply_dft + idft). PROVED CONSTANT 12, NOT THE PROPERTY'S 8: the composition of "
+                   "C06Err's per-transform bound (1+8u)^k - 1 over two forward and one inverse transform is tight at (3/2)*8; 8 would need a per-level constant "
+                   "<= 16/3 u, which the measured twiddle error 3.11u does not allow by this route; the property's E (constant 8) is checked on every run by the "
+                   "md_prod oracle (__int128 schoolbook). Remaining explicit hypotheses: twiddle accuracy 3.5u of both tables (measured every run by ff_tables, "
+                   "libm not proved) and PipeOk = no overflow / no inexact underflow in the flagged run (not discharged from the magnitude box). "
+                   "H1-H4 of Properties/C01.lean are discharged in Properties/Closed.lean for the real network in exact arithmetic. Zero rows of the SVP pipeline in "
+                   "binary64 are not proved (exact-arithmetic rows_zero + bit-exact stream)",
+        level_text="Lean 4 theorems (exact arithmetic, all N, all limb shapes) over the bit-exactly validated module model, unconditional for the real FFT network (Closed); "
+                   "end-to-end binary64 rounding budget and exactness theorem with constant 12 instead of the property's 8 (partial), the property's constant by differential oracle",
         design_ref="DESIGN.md §5 C01",
         technique="Lean 4 proof (polynomial evaluation homomorphism, exact ring instance of the polymorphic model) + bit-exact correspondence of the binary64 instance",
         assumptions=COMMON_ASSUME + ["H1-H4 (ExactDft) for the exact-arithmetic instance: discharged by C06/C14, not in this file",
@@ -94,8 +100,8 @@ PROPS = {
         streams=dict(quick=[("ff_fft", "plain"), ("ff_cfft", "plain"), ("ff_crafted", "plain"), ("ff_ccrafted", "plain"), ("ff_tables", "plain")],
                      thorough=[("ff_fft", "plain"), ("ff_cfft", "plain"), ("ff_crafted", "plain"), ("ff_ccrafted", "plain"), ("ff_tables", "plain")]),
         proved="exact arithmetic, every m = 2^k (all k), reim and cplx layouts, reference and FMA/assembly schedules alike (the same network code as the bit-exact model, instantiated with a commutative ring with I^2=-1, zeta^m=I and the exact table = transcription of the fill_* functions): forward output j = evaluation of the input polynomial at zeta^(1+4*bitrev_k(j)); the inverse applied to exact evaluations returns m times the coefficients; ifft o fft = m.id for any pairing of implementations",
-        not_proved="rounding bound: PROVED for the reim layout, forward and inverse, reference and FMA/assembly schedules, every m = 2^k (C06Err: reim_fft_err / reim_ifft_err: sum |out_j - exact_j|^2 <= ((1+8u)^k - 1)^2 sum |exact_j|^2, and <= (8(k+1)u)^2 for k <= 16) under two explicit hypotheses: stored twiddles within 3.5*2^-53 of the exact roots (libm cos/sin accuracy is measured on every run, <= 3.11*2^-53 on all 571288 entries, not proved) and no overflow/underflow in any intermediate operation (the flagged run; the statement is false in the underflow range, stream class 'tiny'); the cplx-layout rounding bound is not proved (exact-arithmetic theorems only; bound checked on every run by the __float128 oracle, observed max 9% of the bound); the hand-written assembly is tied by bit-exact streams only; read-only tables: covered by C18/C15",
-        level_text="Lean 4 theorems for the exact-arithmetic FFT/iFFT network of every size and both layouts, and the binary64 rounding bound of the property for the reim forward and inverse transforms (cplx rounding bound: measured only); bit-exact differential streams against reference C, AVX2/FMA C and the assembly leaves for every m = 1..65536 with a __float128 evaluation oracle and the property's 2-norm bound; real drivers also run on crafted small-dyadic tables (signed-zero sensitivity); all table entries checked against quad-precision cos/sin",
+        not_proved="rounding bound: PROVED (C06Err) for all four binary64 drivers - reim and cplx layout, forward and inverse, reference and FMA/assembly schedules, every m = 2^k: sum |out_j - exact_j|^2 <= ((1+8u)^k - 1)^2 sum |exact_j|^2, and <= (8 log2(2m) u)^2 for m <= 65536, under two explicit hypotheses: stored twiddles within 3.5*2^-53 of the exact roots (libm cos/sin accuracy is measured on every run, <= 3.11*2^-53 on all 571288 entries, not proved) and no overflow / inexact underflow in any intermediate operation (flags of the flagged run; the statement is false in the underflow range, stream class 'tiny'); the hand-written assembly is tied by bit-exact streams only; read-only tables: covered by C18/C15",
+        level_text="Lean 4 theorems for the exact-arithmetic FFT/iFFT network of every size and both layouts, and the binary64 rounding bound of the property for the reim and cplx forward and inverse transforms; bit-exact differential streams against reference C, AVX2/FMA C and the assembly leaves for every m = 1..65536 with a __float128 evaluation oracle and the property's 2-norm bound; real drivers also run on crafted small-dyadic tables (signed-zero sensitivity); all table entries checked against quad-precision cos/sin",
         design_ref="DESIGN.md §5 C06",
     ),
     "C07": dict(
